@@ -676,6 +676,9 @@ def p1_derived(ctx):
     else:
         oks = []
         for c, lp in events["feature_edges"]:
+            if au.call_tail(c) == "update" and not H.for_ancestors(c, stop=fn) and is_feature_attr(c.args[0], c) and not H.inner_conds(S, c, fn):
+                oks.append(au.enclosing_stmt(c))       # iterating the attribute yields its keys: the flagged edges
+                continue
             kind, e = edge_domain(c, lp)
             if kind == "F" and H.is_name(c.args[0], e) and au.call_tail(c) == "add":
                 oks.append(lp)
@@ -989,6 +992,9 @@ def _collector(ctx, name):
             cyc = {"v": t.elts[0].id, "e": t.elts[1].id}
         elif isinstance(t, ast.Name):
             cyc = {"pair": t.id}
+    elif isinstance(st, ast.Assign) and len(st.targets) == 1 and isinstance(st.targets[0], ast.Name) and isinstance(st.value, ast.Subscript) \
+            and st.value.value is call and au.const(st.value.slice) in (0, 1):
+        cyc = {"v" if au.const(st.value.slice) == 0 else "e": st.targets[0].id}
     if not cyc:
         ctx.undecided("C15-B1", csite, f"{name}: the result of extract_border_cycle is not bound to local names", "")
         return None
@@ -1011,12 +1017,11 @@ def _collector(ctx, name):
             for s2 in au.stmts(s.body):
                 if isinstance(s2, ast.Assign) and len(s2.targets) == 1 and isinstance(s2.targets[0], ast.Subscript) \
                         and au.src(s2.targets[0].value) == K and H.is_name(s2.targets[0].slice, x) and not H.path_condition(s2, stop=s):
-                    if form == "member" or au.const(s2.value) is True or (au.const(s2.value) not in (False, None, 0) and form == "member"):
+                    val_ = au.const(s2.value)
+                    if form == "member" or val_ is True or (isinstance(val_, (int, float)) and not isinstance(val_, bool) and val_ != 0):
                         marked = True
-                    elif au.const(s2.value) in (False, 0):
+                    elif val_ is False or (isinstance(val_, (int, float)) and val_ == 0):
                         bad_mark = s2
-                    else:
-                        marked = marked or (au.const(s2.value) is None and form == "member")
                 if isinstance(s2, ast.Expr) and isinstance(s2.value, ast.Call) and au.call_tail(s2.value) in ("add", "append") \
                         and au.src(s2.value.func.value) == K and len(s2.value.args) == 1 and H.is_name(s2.value.args[0], x) \
                         and not H.path_condition(s2, stop=s) and form == "member":
@@ -1039,7 +1044,11 @@ def _collector(ctx, name):
                   and au.src(s.targets[0].value) == K and H.is_name(s.targets[0].slice, v)] + \
                  [s for s in after if isinstance(s, ast.Expr) and isinstance(s.value, ast.Call) and au.call_tail(s.value) in ("add", "append")
                   and au.src(s.value.func.value) == K and len(s.value.args) == 1 and H.is_name(s.value.args[0], v)]
-    if not marked and only_start and bad_mark is None:
+    all_writes = [n for n in au.walk(outer) if (isinstance(n, ast.Subscript) and isinstance(n.ctx, ast.Store) and au.src(n.value) == K)
+                  or (isinstance(n, ast.Call) and isinstance(n.func, ast.Attribute) and au.src(n.func.value) == K
+                      and n.func.attr in ("add", "append", "update", "extend", "__setitem__", "setdefault"))
+                  or (isinstance(n, ast.AugAssign) and au.src(n.target) == K)]
+    if not marked and only_start and bad_mark is None and len(all_writes) == len(only_start):
         ctx.fail("C15-B1", ctx.site(BORD, fn0, only_start[0]), f"{name}: only the starting vertex of an extracted cycle is marked visited",
                  "an unmarked vertex of the loop starts the same loop again: cycles are returned more than once")
     elif marked:
@@ -1405,6 +1414,10 @@ def a1_readonly(ctx):
             ch = au.chain(c)
             if ch and len(ch) >= 2 and ch[0] == mesh and ch[1] not in ("connectivity",):
                 return ".".join(ch)
+            if isinstance(c, ast.Call) and not c.keywords:
+                fc = au.chain(c.func)
+                if fc and len(fc) == 3 and fc[0] == mesh and fc[1] == "connectivity" and fc[2].startswith(("vertex_to_", "face_to_", "edge_to_", "corner_to_")):
+                    return ".".join(fc) + "(...)"       # the adjacency list cached by the connectivity, not a copy
             return None
         found = []
         for n in au.walk(fn):
@@ -1432,7 +1445,8 @@ def a1_readonly(ctx):
         n_sites += 1
         if found:
             for node, what in found:
-                ctx.fail("C15-A1", ctx.site(BORD, fn, node), f"{fn.name} modifies a container of the mesh in place: {what.split('(')[0].split('[')[0].split(' ')[-1] if False else what}",
+                shown = what.replace(mesh + ".", "<mesh>.")
+                ctx.fail("C15-A1", ctx.site(BORD, fn, node), f"{fn.name} modifies a container of the mesh in place: {shown}",
                          "the container is the one cached inside the mesh (not a copy): after the call the mesh has lost / gained border vertices or edges, "
                          "every later border query on the same mesh returns a wrong result")
         else:
@@ -1654,10 +1668,19 @@ def k1_corners(ctx):
             continue
         elem, idx, seq, start = H.loop_elem(ils[0])
         seqc = S.canon(seq, ils[0], keep=(v,))
-        if not (idx is None and isinstance(elem, ast.Name) and isinstance(seqc, ast.Call) and au.call_tail(seqc) == "vertex_to_faces"
+        if not (idx is None and isinstance(elem, ast.Name) and isinstance(seqc, ast.Call) and au.call_tail(seqc) in ("vertex_to_faces", "vertex_to_corners")
                 and len(seqc.args) == 1 and H.is_name(seqc.args[0], v)):
             continue
         T = elem.id
+        if isinstance(seqc, ast.Call) and au.call_tail(seqc) == "vertex_to_corners":
+            # the corners of v, one per incident face: angles[c] for c in vertex_to_corners(v)
+            val = S.canon(inc[2], q, keep=(v, T))
+            if isinstance(val, ast.Subscript) and H.is_name(val.slice, T) and not H.path_condition(q, stop=ils[0]):
+                acc = tgt.id
+                angle_defs = [leaf for cs, leaf in hj_scope.ifexp_leaves(val.value)]
+                init = S.value(acc, ils[0], keep=(v,))
+                acc_ok = init is not None and au.const(init) in (0, 0.0) and any(ils[0] is z for z in lp.body)
+            continue
         val = S.canon(inc[2], q, keep=(v, T))
         if isinstance(val, ast.Subscript) and isinstance(val.slice, ast.Call) and au.call_tail(val.slice) == "vertex_to_corner_in_face" \
                 and [au.src(a) for a in val.slice.args] == [T, v]:
@@ -1752,3 +1775,22 @@ def g1_geometry_cache(ctx):
     if n == 0:
         ctx.undecided("C15-G1", ctx.site(FEAT, repo.func(FEAT, f"{DET}.run")), "FeatureEdgeDetector: computation of the face normals / corner angles not recognised",
                       "no call of a mouette.attributes function with a `persistent` parameter is found in the detector")
+
+
+
+# ----------------------------------------------------------------------- generic families (msa/rules/generic.py)
+_run_specific = run
+
+
+def run(ctx):
+    _run_specific(ctx)
+    from ..rules import generic
+    generic.apply(ctx, "C15", stale_modules=())
+
+
+def _generic_rule_texts():
+    from ..rules import generic
+    return generic.rule_texts("C15", stale=False)
+
+
+RULES.update(_generic_rule_texts())
